@@ -92,6 +92,7 @@ fn sup_spec(sb: &Sandbox, args: Vec<Vec<u8>>, rules: Vec<Rule>) -> SupSpec {
         sched: Sched::free(),
         log_all: false,
         extra_env: vec![],
+        stdout_to: None,
     }
 }
 
